@@ -95,8 +95,12 @@ def t1(P, out):
     layouts += [((), b) for b in itertools.product(KINDS, repeat=2)] + [(a, None) for a in itertools.product(KINDS, repeat=2)]
     # the main-loop header as Python accepts it: trailing comment, blanks before the colon / at the end, parenthesised condition
     HEADERS = ["while True:", "while True:  # main loop", "while True:# forever", "while True :", "while True:   ", "while (True):", "while(True):", "while  True:"]
-    layouts = [(pre, body, "while True:") for pre, body in layouts] + [(pre, body, h) for h in HEADERS[1:] for pre, body in layouts[:256:37] + layouts[256:272:5]]
+    sample = layouts[:256:37] + layouts[256:272:5]
+    layouts = [(pre, body, "while True:") for pre, body in layouts] + [(pre, body, h) for h in HEADERS[1:] for pre, body in sample]
+    # comment-only lines at column 0 / 2 / deeper between the statements of the main-loop body (they never end a block in Python)
+    layouts += [(pre, body, "while True:|comments-" + str(col)) for col in (0, 2, 9) for pre, body in sample if body is not None]
     for pre, body, header in layouts:
+        header, _, variant = header.partition("|")
         lines, want_pre, want_body, k = ["mon = SerialMonitor(9600)", "c = 1"], [], [], 0
         for kind in pre:
             ls, ms = block(kind, k)
@@ -107,7 +111,11 @@ def t1(P, out):
             lines.append(header)
             for kind in body:
                 ls, ms = block(kind, k)
+                if variant.startswith("comments-"):
+                    lines.append(" " * int(variant.split("-")[1]) + "# a note between two statements of the loop body")
                 lines += ["    " + l for l in ls]
+                if variant.startswith("comments-"):
+                    lines += [" " * int(variant.split("-")[1]) + "# trailing note", ""]
                 want_body += ms
                 k += 1
         src = IMPORTS + "\n".join(lines) + "\n"
@@ -119,7 +127,7 @@ def t1(P, out):
             continue
         got_pre, got_body = markers_of(prog.setup_body), markers_of(prog.loop_body)
         if got_pre != want_pre or got_body != want_body:
-            bad.append({"layout": [pre, body], "header": header, "setup_markers": got_pre, "expected_setup": want_pre, "loop_markers": got_body,
+            bad.append({"layout": [pre, body], "header": header, "variant": variant, "setup_markers": got_pre, "expected_setup": want_pre, "loop_markers": got_body,
                         "expected_loop": want_body, "script": src})
     out.append({"name": "C05/T1/split-order-exactly-once", "status": "discharged" if not bad else "sat", "backend": "enum",
                 "where": f"{n} marker layouts: prologue markers appear once, in order, in setup_body; body markers once, in order, in loop_body",
